@@ -25,6 +25,7 @@ from ..selftest import Twin
 from ._engine import CL, CL_REL, branch_for
 
 EXPLANATION = __doc__.split("\n\n", 1)[1]
+TECHNIQUE = 'static analysis: sibling agreement of snapshot validation between add/consume branches, exhaustive AST evaluation of collect_events on small buffers'
 TRUSTED = ["CPython ast", "collections.Counter / defaultdict semantics"]
 IC = "workflows.context.internal_context"
 IC_REL = "packages/llama-index-workflows/src/workflows/context/internal_context.py"
